@@ -136,6 +136,41 @@ def _class_job(job):
     return dict(res=res.to_json(), cands=cands, none=sum(1 for l in leaves if l.get("result") == "none"), layer=sum(1 for l in leaves if l.get("result") == "layer"))
 
 
+def _perturb_job(job):
+    """n=4,5, m=n: a seeded random (generally non-commuting, possibly dependent) operator set with k entries made
+    symbolic, against a seeded graph: neighbourhoods of arbitrary Pauli sets, including systems with a trivial kernel"""
+    n, k, seed = job
+    rnd = random.Random(seed)
+    gid = rnd.randrange(2 ** (n * (n - 1) // 2))
+    adj = tables.adj_of_id(n, gid)
+    Rb = [[rnd.randrange(2) for _ in range(n)] for _ in range(n)]
+    Sb = [[rnd.randrange(2) for _ in range(n)] for _ in range(n)]
+    cells = rnd.sample([(t, q, g) for t in "xz" for q in range(n) for g in range(n)], k)
+    names = ["p%s%d_%d" % c for c in cells]
+    core.tt_setup(names)
+    cands = []
+
+    def build():
+        X = [[Rb[q][g] for g in range(n)] for q in range(n)]
+        Z = [[Sb[q][g] for g in range(n)] for q in range(n)]
+        for (t, q, g), nm in zip(cells, names):
+            (X if t == "x" else Z)[q][g] = var(nm)
+        return X, Z
+
+    def fn():
+        X, Z = build()
+        return search_obligations(Ctx.cur, n, n, X, Z, adj)
+    res = explore(fn, mode="fork")
+    for v in res.violations[:2]:
+        X, Z = build()
+        Rm, Sm = spec.env_tableau(X, Z, v["model"])
+        cands.append(dict(kind="search", n=n, m=n, R=Rm, S=Sm, adj=adj, label=v["label"]))
+    res.violations = []
+    leaves = res.leaves
+    res.leaves = leaves[:1]
+    return dict(res=res.to_json(), cands=cands, none=sum(1 for l in leaves if l.get("result") == "none"), layer=sum(1 for l in leaves if l.get("result") == "layer"))
+
+
 def _gates_job(n):
     """local_clifford_layer_to_circuit on a symbolic block (4 bits) at every qubit position: 6 feasible branches;
     the emitted gate word and its inverse act on a symbolic single-qubit Pauli exactly as the block prescribes"""
@@ -187,6 +222,7 @@ def run(tier, seed):
     ck.bounds += ["n=2: every set of m=1,2 Paulis (unconstrained: also non-commuting / dependent), both graphs; n=3: m=1 and m=2 complete for every graph on 3 vertices, m=3: a seeded %s of the 2048 (graph, 8-bit) partitions of the 2^18 x 8 input space" % ("16" if tier == "quick" else "512"),
                   "n=4..6: L|G_c> with L symbolic on a 1-2 qubit window against the graph of the own class and of other classes, full generator sets and subsets (m<n); product class vs empty graph on 6 qubits (largest kernel)",
                   "completeness: per 'None' path one exists-layer query over all 6^n layers and all inputs on the path; soundness: per 'layer' path the defining equation for all inputs on the path",
+                  "n=4,5 (m=n): seeded random unconstrained operator sets with 6 symbolic entries each (64 neighbours per seed) against a seeded graph - reaches systems with a trivial kernel",
                   "gate emission: symbolic 2x2 block at every qubit position n=1..6"]
     ck.outside += ["n>=4 operator sets that are not local-Clifford images of class graphs restricted to generator subsets"]
     rnd = random.Random(seed)
@@ -226,6 +262,8 @@ def run(tier, seed):
         jobs.append(("c", (6, 0, 0, "all", [w], list(range(6)), seed + w)))
     if tier == "thorough":
         jobs.append(("c", (6, 0, 0, "all", [0], [0, 1, 2, 3], seed + 20)))
+    for i in range(24 if tier == "quick" else 200):
+        jobs.append(("p", (4 if i % 3 else 5, 6, seed * 1000 + i)))
     for n in range(1, 7):
         jobs.append(("g", n))
     cands = []
@@ -237,6 +275,8 @@ def run(tier, seed):
             part = "unconstrained n=%d m=%d" % (arg[0], arg[1])
         elif kind == "c":
             part = "class-family n=%d" % arg[0]
+        elif kind == "p":
+            part = "perturbed-random n=%d" % arg[0]
         else:
             part = "gate-emission n=%d" % arg
         ck.add(part, res, sample=1 if (kind == "g" and arg == 3) or (kind == "s" and arg[1] == 2 and arg[2] == 1 and arg[0] == 3) else 0)
@@ -258,7 +298,7 @@ def run(tier, seed):
 
 def _dispatch(job):
     kind, arg = job
-    return {"s": _small_job, "c": _class_job, "g": _gates_job}[kind](arg)
+    return {"s": _small_job, "c": _class_job, "g": _gates_job, "p": _perturb_job}[kind](arg)
 
 
 # ------------------------------------------------------------------------------------------------ replay
